@@ -330,11 +330,11 @@ impl<'a> G<'a> {
         }
         self.depth -= 1;
     }
-    fn ows_after_expr(&mut self) { if self.u.coin(1, 4) { self.mark(" ", MK::HiddenWs); } }
+    fn ows_after_expr(&mut self) { if self.u.coin(1, 4) { let w = self.pick(&[" ", " ", " ", "\n", "\t", "\r", "\r\n", "  ", " \r", "\u{a0}", "\u{c}"]); self.mark(w, MK::HiddenWs); } }
     fn gap_after_expr(&mut self) { self.ows_after_expr(); }
     // the gap between the end of an expression and the %then / %to / %by that ends it: optional after a character that cannot
     // continue a name
-    fn rgap_after_expr(&mut self) { if self.out.ends_with([')', '"', '\'']) && self.u.coin(1, 3) { self.feat("keyword-glued-to-expression-end"); return; } let w = self.pick(&[" ", "\n", "  "]); self.mark(w, MK::HiddenWs); }
+    fn rgap_after_expr(&mut self) { if self.out.ends_with([')', '"', '\'']) && self.u.coin(1, 3) { self.feat("keyword-glued-to-expression-end"); return; } let w = self.pick(&[" ", " ", "\n", "  ", "\r", "\r\n", "\t"]); self.mark(w, MK::HiddenWs); }
     // the gap after %if / %to / %by: may be left out when the expression starts with a character that cannot continue a name
     fn kgap(&mut self) { if self.u.coin(1, 5) { self.feat("expression-glued-to-keyword"); self.force_nonword = true; } else { self.rws(); } }
     // the gap after %then / %else before a statement that starts with '%'
@@ -471,6 +471,7 @@ impl<'a> G<'a> {
             match if self.depth > 5 { self.u.below(3) } else { self.u.below(10) } {
                 0 => { let w = self.pick(WORDS); self.p(w); }
                 1 => { if self.u.coin(1, 4) { self.feat("literal-percent"); self.p("50% "); } else { let w = self.pick(WORDS); self.p(w); } }
+                2 if self.u.coin(1, 4) => { self.feat("literal-percent-before-non-name-char"); let s = self.pick(&["%*x", "a%*b", "50 %* 2", "%-", "%1", "%%", "%.", "%=", "&*", "&1", "&-x"]); self.p(s); self.p(" "); }
                 2 => { let s = self.pick(&["1", "=", "+", ",", "(z)", "/", "a=b", "%", "&", "* x", "-"]); self.p(s); self.p(" "); }
                 3 => self.mvar(true),
                 4 => { self.user_call(0); if !self.out.ends_with(')') { self.p(" w"); } }
